@@ -1038,6 +1038,31 @@ def r_unsigned_sub(cx):
                   "the natural parameter is known to be >= %d where %d is subtracted" % (lb, k) if ok else
                   "%s subtracts %d from a natural-number parameter that is only known to be >= %d: unsigned underflow "
                   "(panic in debug builds, a wrapped value of about 1.8e19 otherwise)" % (name, k, lb), cx.where(s.get("span")))
+    # the same for the number of parts a user text was split into: `parts.len() - k` in the code that takes names and
+    # definitions apart (ellipsoid::, op::, token::, context::) needs a dominating test that there are at least k parts
+    m = 0
+    for name in sorted(cx.f.lib["fns"]):
+        if "::tests" in name or not name.startswith(("ellipsoid::", "op::", "token::", "<T as token", "context::", "math::angular")):
+            continue
+        f = cx.f.fn(name)
+        fns += 1
+        for bb, i, s in f.all_stmts():
+            if not (s["k"] == "assign" and s["rv"]["k"] == "bin" and str(s["rv"].get("op", "")).startswith("Sub")):
+                continue
+            v = f.rvalue(s["rv"], (bb, i))
+            if v[0] != "bin" or not is_const_int(mir.strip_refs(v[3])):
+                continue
+            lhs = mir.strip_refs(v[2])
+            if not (lhs[0] == "call" and isinstance(lhs[1], str) and lhs[1].endswith("::len")):
+                continue
+            m += 1
+            k = mir.strip_refs(v[3])[2]
+            lb = _lower_bound(f, bb, lhs)
+            cx.ob("R-UNSIGNED-SUB", "%s/len-sub%d" % (name, m - 1), lb >= k,
+                  "the length is known to be >= %d where %d is subtracted" % (lb, k) if lb >= k else
+                  "%s subtracts %d from a length that is only known to be >= %d at that point: for a text with fewer parts the "
+                  "subtraction underflows (panic in debug builds) before any validation is reached" % (name, k, lb),
+                  cx.where(s.get("span")))
     cx.ob("R-UNSIGNED-SUB", "scan", fns > 0, "%d operator functions scanned, %d subtraction(s) from natural parameters" % (fns, n), "src/inner_op")
     cx.count("R-UNSIGNED-SUB", "functions_scanned", fns)
 
@@ -1179,3 +1204,26 @@ def r_array_index_guard(cx):
             k += 1
     cx.ob("R-ARRAY-INDEX-GUARD", "summary", True, "%d computed positions in fixed arrays examined" % n, nontrivial=False)
     cx.count("R-ARRAY-INDEX-GUARD", "sites", n)
+
+
+@rule("R-NO-MAP-INDEX", ["C09", "C16"])
+def r_no_map_index(cx):
+    """`map[key]` on a BTreeMap panics when the key is missing. The tokenizer and the instantiation code (token::, op::,
+    context::) look keys up in the map a user text was split into, where any key - the operator name `_name` included - may
+    be missing (an empty step, a step that starts with `key=value`): they use `get`, never the indexing operator."""
+    n = 0
+    bad = 0
+    for name in sorted(cx.f.lib["fns"]):
+        if "::tests" in name or not name.startswith(("token::", "<T as token", "op::", "context::")):
+            continue
+        f = cx.f.fn(name)
+        n += 1
+        for bb, t in f.calls():
+            c = f.callee(t) or ""
+            if "BTreeMap" in c and c.rsplit("::", 1)[-1] == "index":
+                bad += 1
+                cx.ob("R-NO-MAP-INDEX", "%s/index%d" % (name, bad - 1), False,
+                      "%s indexes a map with `[key]`: a text in which that key is missing (an empty definition, a step without an "
+                      "operator name) panics instead of giving an error" % name, cx.where(t["span"]))
+    cx.ob("R-NO-MAP-INDEX", "summary", True, "%d functions of the tokenizer and instantiation code examined" % n, nontrivial=False)
+    cx.count("R-NO-MAP-INDEX", "functions", n)
